@@ -183,6 +183,8 @@ class UpdaterSystem:
         yield ("clear",)
         yield ("updatesome", "p", True)
         yield ("updatesome", "q", False)
+        yield ("updatesome2", ("p", "q"), True)
+        yield ("updatesome2", ("q", "p"), True)
         yield ("del", "p")
 
     # model helpers
@@ -255,6 +257,13 @@ class UpdaterSystem:
                 self.apply(st, prm)
                 if clr:
                     st.pos[prm], st.neg[prm] = [], []
+            elif name == "updatesome2":
+                _, prms, clr = op
+                st.host.updatesome(*prms, clear=clr)
+                for prm in prms:
+                    self.apply(st, prm)
+                    if clr:
+                        st.pos[prm], st.neg[prm] = [], []
             elif name == "del":
                 delattr(upd, op[1])
                 st.pos[op[1]], st.neg[op[1]] = [], []
@@ -301,7 +310,7 @@ def algebra_shard(red, red_how, form, ukind, lkind, depth, max_states):
         return tally
 
     def nontrivial(st, op):
-        if op[0] in ("update", "updatesome"):
+        if op[0] in ("update", "updatesome", "updatesome2"):
             return (red, red_how, form, ukind, lkind, op, len(st.pos["p"]), len(st.neg["p"]), len(st.pos["q"]), len(st.neg["q"]))
         return None
 
@@ -331,13 +340,27 @@ def acc_for(form, kind, order):
     return acc
 
 
-def range_shard(form, kind, order, tier):
+def range_shard(form, kind, order, tier, limits=None):
+    """limits: (min, max) other than the module default, e.g. a range with a limit exactly 0 (inhibitory [-1, 0], [0, 1])"""
+    global MIN, MAX
+    if limits is None:
+        return _range_shard(form, kind, order, tier)
+    keep = (MIN, MAX)
+    MIN, MAX = limits
+    try:
+        return _range_shard(form, kind, order, tier)
+    finally:
+        MIN, MAX = keep
+
+
+def _range_shard(form, kind, order, tier):
     tally = Tally()
     G = 64
     Pgrid = [MIN + (MAX - MIN) * i / G for i in range(G + 1)]
     if kind == "sharp":
         Pgrid += [MAX + 0.25, MAX + 1.0, MIN - 0.25, MIN - 1.0]
     umax = 1.0 if kind in ("mult", "sharp") else (MAX - MIN)
+    lim = "" if (MIN, MAX) == (-1.0, 1.0) else f":limits={MIN:g},{MAX:g}"
     ugrid = [umax * i / 8 for i in range(9)]
     try:
         acc = acc_for(form, kind, order)
@@ -358,7 +381,7 @@ def range_shard(form, kind, order, tier):
                     tally.add("evaluations", len(Pgrid))
                     eps = 1e-6 * (MAX - MIN)
                     for i, (a, b) in enumerate(zip(cur.tolist(), new.tolist())):
-                        case = {"form": form, "kind": kind, "order": order, "P": a, "u_pos": up if which != "neg" else None,
+                        case = {"form": form, "kind": kind, "order": order, "limits": [MIN, MAX], "P": a, "u_pos": up if which != "neg" else None,
                                 "u_neg": un if which != "pos" else None, "step": s}
                         if kind == "sharp":
                             if a >= MAX and b > a + eps:
@@ -371,15 +394,15 @@ def range_shard(form, kind, order, tier):
                                     tally.violation(f"sharp:inside-not-additive:{form}", case, f"P={a} -> {b}, expected {exp}", exp, b)
                         else:
                             if MIN <= a <= MAX and not (MIN - eps <= b <= MAX + eps):
-                                tally.violation(f"range:left-range:{kind}:{form}", case, f"P={a} in range moved to {b} outside [{MIN},{MAX}]", [MIN, MAX], b)
+                                tally.violation(f"range:left-range:{kind}:{form}{lim}", case, f"P={a} in range moved to {b} outside [{MIN},{MAX}]", [MIN, MAX], b)
                             # formula (catches a dependence that is in range but wrong)
                             uk = {"mult": "mult", "smult": "smult", "spower": "spower"}[kind]
                             exp = a + (ref_upper(uk, a, up, {"power": order}) if which != "neg" else 0) - \
                                 (ref_lower(uk, a, un, {"power": order}) if which != "pos" else 0)
                             if abs(b - exp) > 1e-5 * max(1.0, abs(exp)):
-                                tally.violation(f"range:formula:{kind}:{form}", case, f"P={a} -> {b}, documented dependence gives {exp}", exp, b)
+                                tally.violation(f"range:formula:{kind}:{form}{lim}", case, f"P={a} -> {b}, documented dependence gives {exp}", exp, b)
                         if a != b:
-                            tally.mark("nontrivial", (form, kind, order, a, up, un, which))
+                            tally.mark("nontrivial", (form, kind, order, MIN, MAX, a, up, un, which))
                     if kind == "sharp":
                         break
                     cur = new.clamp(MIN, MAX) if False else new
@@ -407,6 +430,9 @@ def run(rep):
         for kind, orders in (("mult", (1.0,)), ("smult", (1.0,)), ("spower", (1.0, 1.5, 2.0, 3.0)), ("sharp", (1.0,))):
             for order in orders:
                 jobs.append((range_shard, (form, kind, order, rep.tier)))
+                if order in (1.0, 2.0):  # ranges with a limit exactly 0
+                    jobs.append((range_shard, (form, kind, order, rep.tier, (-1.0, 0.0))))
+                    jobs.append((range_shard, (form, kind, order, rep.tier, (0.0, 1.0))))
     tally = run_shards(jobs, seed=rep.seed)
     rep.tally.merge(tally)
     c = tally.counts
